@@ -295,13 +295,14 @@ class Axis(GetSetDelAttrMixin, AbstractAxis):
             return self
 
         def _same_slope(a, b):
-            " both decreasing or both increasing "
-            return (a[-1]>=a[0])==(b[-1]>=b[0])
+            " both decreasing or both increasing (a single element has no slope) "
+            return a.size == 1 or b.size == 1 or (a[-1]>=a[0])==(b[-1]>=b[0])
 
         if consistent_kinds and self.is_monotonic() and other.is_monotonic() and _same_slope(self.values, other.values):
             # join two sorted axes
             joined = np.union1d(self.values, other.values)
-            if self.values[-1] <= self.values[0]: # decreasing !
+            longest = self.values if self.values.size > 1 else other.values
+            if longest[-1] < longest[0]: # decreasing !
                 joined = joined[::-1]
 
         else:
